@@ -25,7 +25,7 @@ def build():
             'guard': '--cfg bsv_verif',
             'enable': 'RUSTFLAGS="--cfg bsv_verif" for the Kani harness crate and the replay probe; Verus reads the source text and needs no hook',
             'baseline_off_cmd': 'cd /repo && cargo test --workspace --no-fail-fast --offline',
-            'source_commits': [],
+            'source_commits': ['eeda671ca8c1fc7f3df220b45f437704a6ee4979'],
             'add_only': True,
         },
         'engines': [
